@@ -446,12 +446,14 @@ def _readback(obj, attr):
     return v
 
 
-def _probe_field(obj, cls):
+def _probe_field(obj, cls, in_list=False):
     """no-late-failure clause"""
     m = build.magpy
     if cls == "Sensor":
         src = m.misc.Dipole(moment=(1, 2, 3))
-        return build.call(m.getB, src, obj)
+        return build.call(m.getB, [src, m.misc.Dipole(moment=(3, 2, 1))] if in_list else src, obj)
+    if in_list:
+        return build.call(m.getB, [m.misc.Dipole(moment=(1, 2, 3)), obj], (3.3, -2.2, 4.4))
     return build.call(m.getB, obj, (3.3, -2.2, 4.4))
 
 
@@ -547,12 +549,14 @@ def run_case(case, ctx):
             complete = False
         if attr in MAGNET_ATTRS and value is None:
             complete = False
-        if complete:
-            p = _probe_field(obj, cls)
+        # an object left incomplete by None (documented "not yet set") must make getB raise the library's own error,
+        # alone and as a later entry of a list of sources; a complete one must not fail with a foreign exception
+        for form, p in (("alone", _probe_field(obj, cls)), ("after_other_source", _probe_field(obj, cls, in_list=True))):
             if not p.ok and type(p.exc).__name__ not in lib_errors:
-                out.append(Violation({**sig0, "sub": "late_failure", "verdict": verdict, "mut": e.get("mut", ""), **exc_sig(p.exc)},
-                                     f"{cls} with {attr}={_show(value)} was accepted but getB fails with {type(p.exc).__name__}: {str(p.exc)[:160]}"))
-            ctx.label("late_probe")
+                out.append(Violation({**sig0, "sub": "late_failure", "verdict": verdict, "mut": e.get("mut", ""), "complete": complete, "form": form, **exc_sig(p.exc)},
+                                     f"{cls} with {attr}={_show(value)} was accepted but getB ({form}) fails with {type(p.exc).__name__}: {str(p.exc)[:160]}"))
+                break
+        ctx.label("late_probe" if complete else "late_probe_incomplete_object")
     # same through constructor and setter: compare read-back of the other route (valid values)
     if verdict == "valid" and accepted and attr not in ("faces", "field_func") and not (cls == "TriangularMesh" and attr == "vertices"):
         value2 = dec(e)
